@@ -343,7 +343,7 @@ func VF_C02_ConcurrentBatchesDurable(nw int, order int) {
 // never a mixture, and to one that contains every batch whose
 // persisted-callback has reported success.
 //
-// vf:harness property=C03 cases=sc:8..10;order:0..1;pace:0,21 cases.thorough=sc:4..10;order:0..2;pace:0,4,13,21,26 sched=1 schedbudget=1 schedbudget.thorough=2 preempt=0 preempt.thorough=1 schedtotal=1 schedtotal.thorough=2 goinline=1 chanslack=8 deadlock=violation clock=zero maxpaths=400000 replay=model-only diff=off
+// vf:harness property=C03 cases=sc:8..10;order:0..1;pace:0,21 cases.thorough=sc:4..10;order:0..2;pace:0,4,13,21,26 sched=1 schedbudget=1 preempt=0 preempt.thorough=1 schedtotal=1 goinline=1 chanslack=8 deadlock=violation clock=zero maxpaths=400000 replay=model-only diff=off
 // vf:replace hash/crc32.Update vfChecksumUpdate
 // vf:replace io.CopyN vfCopyN
 // vf:replace (*github.com/RoaringBitmap/roaring.Bitmap).ReadFrom vfRoaringReadFrom
